@@ -214,6 +214,15 @@ theorem v1_write_spec (c : Crcs) (h1 : ∀ b, c.ieee b < M32) (h2 : ∀ b, c.cas
     decodeSet c (writeV1 c.ieee attrs now 0 recs) = some ((msgsOfV1 attrs now 0 recs).map Entry.msg) :=
   writeV1_spec c h1 h2 attrs now recs hwf
 
+/-- known finding C05-D32, at model level: the format-1 writer never looks at the headers — records that differ only in
+their headers produce the same bytes (so the headers cannot reach a consumer; the code returns no error either) -/
+theorem v1_drops_headers (crc : Bytes → Nat) (attrs now : Int) : ∀ (rs : List PRec) (i : Nat),
+    writeV1 crc attrs now i rs = writeV1 crc attrs now i (rs.map fun r => { r with headers := [] })
+  | [], _ => rfl
+  | r :: rs, i => by
+    simp only [writeV1, List.map_cons, v1_drops_headers crc attrs now rs (i + 1)]
+    rfl
+
 /-! ## Part F — the library's DECODER on the Client.Fetch path (Model/RecordReader) -/
 
 open Model.RecordReader in
